@@ -33,6 +33,14 @@ type C07Extra struct {
 	// phase 0, d(r+1) to phase 1, the rest to phase 1 or later.  The pins go to Pins (must be non-nil).
 	ReopenChains int
 	Pins         map[blob.Ref]int
+	// WithAttrRows (round 6): histories for the attr=value lookup on the sorted rows
+	// (Index.SearchPermanodesWithAttr), all by signer 1 on an indexed attribute (tag, title, camliRoot,
+	// camliImportRoot): every permanode of the world is given the SAME value (one's only such claim is
+	// deleted); one permanode additionally gets one or two NEWER claims giving that value which are
+	// deleted (the newest rows of the value are rejected, an older one of the same permanode stands);
+	// and one permanode gets value A, then B, then A again on a single-valued attribute (at a time
+	// between B and the second A the newest row for A is in the future, the oldest is not).
+	WithAttrRows bool
 }
 
 // lexFractions are sub-second parts (ns) whose RFC 3339 renderings are prefixes of each other in
@@ -354,6 +362,45 @@ func ExtendC07(w *World, rng *rand.Rand, o C07Extra) {
 			w.Features["subsecond-date"] = true
 			w.Features["c07-lexical-date-order"] = true
 		}
+	}
+	if o.WithAttrRows {
+		n := len(w.Permanodes)
+		attrs := []string{"tag", "title", "camliRoot", "camliImportRoot"}
+		ai := rng.Intn(len(attrs))
+		attr := attrs[ai]
+		val := []string{"wa-shared", "wa shared|x", "50%wa", "wa-shared"}[rng.Intn(4)]
+		ds := ordered(n + 6)
+		masked := rng.Intn(n)
+		control := -1
+		if n >= 3 {
+			control = (masked + 1 + rng.Intn(n-1)) % n
+		}
+		for i, pn := range w.Permanodes {
+			c := mk(1, []string{Add, Set}[rng.Intn(2)], pn, attr, val, ds[i])
+			if i == control {
+				del(1, c, fresh(), "claim") // the only claim giving the value is deleted
+			}
+		}
+		// the newest claims giving the value: on the masked permanode, deleted
+		for x, m := 0, 1+rng.Intn(2); x < m; x++ {
+			c := mk(1, []string{Add, Set}[rng.Intn(2)], w.Permanodes[masked], attr, val, ds[len(ds)-1-x])
+			del(1, c, fresh(), "claim")
+		}
+		w.Features["c07-withattr-newest-row-deleted"] = true
+		// value A, B, A again (dates between the standing claims and the deleted newest ones)
+		pn := pickPN()
+		attr2 := attrs[(ai+1+rng.Intn(3))%len(attrs)]
+		mk(1, Set, pn, attr2, "wa-draft", ds[n])
+		mk(1, Set, pn, attr2, "wa-final", ds[n+1])
+		again := mk(1, Set, pn, attr2, "wa-draft", ds[n+2])
+		if rng.Intn(3) == 0 {
+			del(1, again, fresh(), "claim")
+		}
+		if n >= 2 && rng.Intn(2) == 0 {
+			// a permanode that gets value A only late
+			mk(1, Set, w.Permanodes[(masked+1)%n], attr2, "wa-draft", ds[n+3])
+		}
+		w.Features["c07-withattr-value-set-again"] = true
 	}
 	for k := 0; k < o.ReopenChains; k++ {
 		var attrClaims []ClaimInfo
